@@ -170,7 +170,12 @@ def check(prop_id, tier):
         all_fail += f
         all_known += k
     for d in all_dis[:1]:
-        problems.append(dict(kind='correspondence', name=d['family'], log=json.dumps(d, default=repr)[:3000]))
+        m, im = d['model'], d['impl']
+        n = next((i for i in range(min(len(m), len(im))) if m[i] != im[i]), min(len(m), len(im)))
+        problems.append(dict(kind='correspondence', name=d['family'], case=d['case'], first_difference_at=n,
+                             model_excerpt=m[max(0, n - 300):n + 300], impl_excerpt=im[max(0, n - 300):n + 300],
+                             disagreements=len(all_dis),
+                             log='model and implementation differ on %d case(s) of family %s' % (len(all_dis), d['family'])))
 
     # thorough: independent re-check of the compiled proofs and axiom listing
     coqchk_out = None
